@@ -67,7 +67,7 @@ func hazardOf(tokens []string) string {
 	return strings.TrimSpace(h)
 }
 
-func genC20Stream(r *core.Rand, g *gen.StmtGen) c20Stream {
+func genC20Stream(r *core.Rand, g *gen.StmtGen, long bool) c20Stream {
 	ns := r.Range(1, 8)
 	var st c20Stream
 	var typed strings.Builder
@@ -83,6 +83,13 @@ func genC20Stream(r *core.Rand, g *gen.StmtGen) c20Stream {
 			if r.Bool() {
 				n = &proto.NStmt{Kind: "select", Star: true, From: []proto.NTable{{Name: []string{"t", "semi;colon", "o'hara", "my col"}[r.Intn(4)]}},
 					Where: &proto.Cond{Op: "=", LHS: model.ColOp("s"), RHS: model.LitOp(proto.Str(lits[r.Intn(len(lits))]))}}
+			}
+		} else if long && i == 0 {
+			// a long statement (pasting a multi-row INSERT of several KB is
+			// ordinary use)
+			n = &proto.NStmt{Kind: "insert", Name: "t"}
+			for k, rows := 0, r.Range(60, 600); k < rows; k++ {
+				n.Rows = append(n.Rows, []proto.Val{proto.Int(int64(k)), proto.Str(fmt.Sprintf("value number %d; with some text", k))})
 			}
 		} else {
 			n = g.Any()
@@ -148,7 +155,7 @@ func genC20Stream(r *core.Rand, g *gen.StmtGen) c20Stream {
 
 func checkC20(c *core.Ctx) []core.Floor {
 	c.Rule = "lists of 1-8 statements (from the C10 grammar plus literals and quoted identifiers containing semicolons, the other quote kind, spaces, keywords), each terminated by a semicolon, entered with line breaks (Enter = CR, as in raw mode) at random token boundaries - never inside a literal - several statements per line or one statement over many lines; delivered byte by byte, in random small chunks that split UTF-8 sequences, or as full 256-byte reads (a paste is a fast byte stream: the console never enables bracketed paste). The real Terminal.ReadLine (driven in-package through a go test -overlay driver) is called until EOF; the submitted statements, tokenised with the real SQL tokenizer, must equal the typed statements one to one and in order. Distinct = keystroke stream + chunking; non-trivial = a literal contains a semicolon, or a line carries several statements, or a statement spans several lines."
-	c.Assume = []string{"what a line break inside a literal should become is not stated by the property: never generated", "lines longer than the terminal's 4096-rune buffer are not generated"}
+	c.Assume = []string{"what a line break inside a literal should become is not stated by the property: never generated", "one stream in fifty carries a statement of 4-40 KB"}
 	bin, err := buildOverlayTest(c, "cmd/console", "console_driver_test.go", "zz_verif_driver_test.go")
 	if err != nil {
 		fmt.Printf("BUILD-FAILED property=C20\n%v\n", err)
@@ -166,9 +173,13 @@ func checkC20(c *core.Ctx) []core.Floor {
 		g := &gen.StmtGen{R: r}
 		var streams []c20Stream
 		for i := 0; i < batch; i++ {
-			st := genC20Stream(r, g)
-			if len(st.typed) > 3500 {
+			long := i%50 == 7
+			st := genC20Stream(r, g, long)
+			if !long && len(st.typed) > 3500 {
 				continue
+			}
+			if long {
+				st.mode += "_long"
 			}
 			streams = append(streams, st)
 		}
@@ -193,12 +204,16 @@ func checkC20(c *core.Ctx) []core.Floor {
 		}
 	})
 	return []core.Floor{{Key: "streams", Min: 2000}, {Key: "streams_equal", Min: 500}, {Key: "hazard_semicolon_in_single_quotes", Min: 20}, {Key: "hazard_semicolon_in_double_quotes", Min: 20},
-		{Key: "three_or_more_statements_on_one_line", Min: 20}, {Key: "statement_over_four_or_more_lines", Min: 20}, {Key: "mode_typed_byte_by_byte", Min: 100}, {Key: "mode_random_chunks", Min: 100}, {Key: "mode_pasted_full_reads", Min: 100}}
+		{Key: "three_or_more_statements_on_one_line", Min: 20}, {Key: "statement_over_four_or_more_lines", Min: 20}, {Key: "mode_typed_byte_by_byte", Min: 100}, {Key: "mode_random_chunks", Min: 100}, {Key: "mode_pasted_full_reads", Min: 100}, {Key: "streams_with_a_statement_over_4096_characters", Min: 20}}
 }
 
 func judgeC20(c *core.Ctx, st c20Stream, o c20Out) {
 	c.Count("streams", 1)
 	c.Count("mode_"+st.mode, 1)
+	if strings.HasSuffix(st.mode, "_long") {
+		c.Count("streams_with_a_statement_over_4096_characters", 1)
+		c.Max("longest_stream_bytes", int64(len(st.typed)))
+	}
 	for _, h := range strings.Fields(st.hazard) {
 		c.Count("hazard_"+h, 1)
 	}
@@ -222,6 +237,9 @@ func judgeC20(c *core.Ctx, st c20Stream, o c20Out) {
 	class := ""
 	if semi {
 		class = ":semicolon-inside-quotes"
+	}
+	if strings.HasSuffix(st.mode, "_long") {
+		class = ":long-statement"
 	}
 	if len(o.Got) != len(o.Want) {
 		c.Violation("C20:statement-count-differs"+class, fmt.Sprintf("%d statements typed, %d submitted", len(o.Want), len(o.Got)), replay)
